@@ -254,6 +254,18 @@ def setInsert (tab : Tab) (ns : NewStart) : Tab × CSet × Bool :=
     else { tab with sets := tab.sets ++ [(core.num, dists)], nSets := tab.nSets + 1 }
   (tab, { core := core, dists := dists }, isNew)
 
+/-- What `core_symb_vect_new_all_stop` counts over all cores of a parse: the number of triples
+(one per core and symbol with a transition or a reduce vector), the number of distinct non-empty
+transition vectors with their total length, the same for the reduce vectors
+(`n_core_symb_pairs`, `n_transition_vects`, `n_transition_vect_len`, `n_reduce_vects`,
+`n_reduce_vect_len`). -/
+def vectCounts (tab : Tab) : List Nat :=
+  let pairs := tab.cores.foldl (fun k c =>
+    k + ((c.trans.map (·.1)) ++ ((c.reduces.map (Sym.n ·.1)).filter fun X => !(c.trans.map (·.1)).contains X)).length) 0
+  let ts := ((tab.cores.flatMap fun c => c.trans.map (·.2)).filter (· != [])).eraseDups
+  let rs := ((tab.cores.flatMap fun c => c.reduces.map (·.2)).filter (· != [])).eraseDups
+  [pairs, ts.length, (ts.map List.length).sum, rs.length, (rs.map List.length).sum]
+
 /-- the core in the table and `new_core` are one object -/
 def Tab.storeCore (tab : Tab) (c : Core) : Tab := { tab with cores := tab.cores.set c.num c }
 
